@@ -699,7 +699,7 @@ def run(ctx, replay=None):
         kinds = ["uniform", "loguniform", "reverseloguniform", "randint", "lograndint", "quniform", "qloguniform",
                  "qrandint", "qlograndint", "choice", "ordinal_equal", "ordinal_nn", "ordinal_nnlog", "finrange",
                  "logfinrange"]
-        specs = [gen_spec(rng, k) for k in kinds for _ in range(ctx.n(8, 150))]
+        specs = [gen_spec(rng, k) for k in kinds for _ in range(ctx.n(6, 150))]
         # the probes of DESIGN section 7 and other fixed corner cases, always part of the run
         specs += [dict(kind="qrandint", lower=1, upper=10, q=4), dict(kind="quniform", lower=0.1, upper=0.3, q=0.1),
                   dict(kind="qrandint", lower=0, upper=8, q=4), dict(kind="quniform", lower=0.5, upper=2.0, q=0.5),
@@ -713,7 +713,7 @@ def run(ctx, replay=None):
                   dict(kind="reverseloguniform", lower=0.1, upper=0.9)]
         huge = huge_int_specs(rng)
         rng.shuffle(huge)
-        specs = huge[:ctx.n(10, 60)] + specs     # first: their violations are reported first
+        specs = huge[:ctx.n(8, 60)] + specs     # first: their violations are reported first
         spaces = None
 
     only = replay.get("only") if replay else None
@@ -1090,7 +1090,7 @@ def _space_cases(ctx, C, rng, cs, make_hpr, spaces):
              "ordinal_nn", "ordinal_nnlog", "finrange", "logfinrange"]
     if spaces is None:
         spaces = []
-        for _ in range(ctx.n(40, 800)):
+        for _ in range(ctx.n(30, 800)):
             n = rng.randint(2, 5)
             names = rng.sample(["lr", "wd", "layers", "act", "bs", "mom", "drop", "zeta", "alpha", "epochs"], n)
             sp = {}
